@@ -27,6 +27,8 @@ class FrontEnd:
     @inject(WebApp)
     def off(self, web_app=injected):
         script_control = web_app.get_script_control('off')
+        if script_control is None:
+            return self.index()
         web_app.stop_current()
         web_app.queue_script(script_control)
         return self.render_action(script_control, "")
@@ -58,6 +60,8 @@ class FrontEnd:
 
     @inject(WebApp)
     def render_action(self, script_control, message, web_app=injected):
+        if script_control is None:
+            return self.index()
         return render_template(
             'action.html',
             agent_class=self.get_agent_class(),
